@@ -37,7 +37,7 @@ def gen_case(rng: Rng, max_frames: int = 12) -> dict:
     nports = {"host": 1, "switch": rng.range(2, 4), "router": rng.range(2, 4), "firewall": 3}[kind]
     ports = []
     for p in range(nports):
-        ports.append({"ip": f"10.0.{p + 1}.1", "mask": "255.255.255.0", "enabled": not rng.chance(1, 5),
+        ports.append({"ip": f"10.0.{p + 1}.1", "mask": "255.255.255.0", "enabled": not rng.chance(1, 7),
                       "peer_ip": f"10.0.{p + 1}.2", "linked": True})
     case = {"kind": kind, "on": not rng.chance(1, 4), "ports": ports, "acls": {}, "ops": []}
     ids = {"router": ["router"], "firewall": list(FW_ACLS.values()) + ["router"]}.get(kind, [])
@@ -81,7 +81,7 @@ def gen_frame(rng: Rng, case: dict, addrs: List[str]) -> dict:
     dst_ip = rng.choice(addrs) if not rng.chance(1, 3) else rng.choice([q["ip"] for q in case["ports"]])
     return {"op": "frame", "port": p, "src_mac": 0xAA0000000000 + rng.below(5), "dst_mac": dst_mac, "proto": proto,
             "src_ip": rng.choice(addrs[:-2]), "dst_ip": dst_ip, "sport": sport, "dport": dport,
-            "ttl": rng.choice([64, 64, 64, 2, 1, 0]), "arp": proto == "udp" and dport == 219 and rng.chance(1, 2),
+            "ttl": rng.choice([64, 64, 64, 64, 64, 3, 2, 1, 0]), "arp": proto == "udp" and dport == 219 and rng.chance(1, 2),
             "fwd": rng.choice([None] + list(range(nports))), "nic": rng.choice([None, 0, 1, 2]), "reply": rng.chance(1, 2)}
 
 
